@@ -33,8 +33,6 @@ MUTANTS = [
     ("tokenize-no-rewind", "eyecite/tokenizers.py", "                    offset = last_token.start\n", "", ["C12"]),
     ("filter-sort-fullspan", "eyecite/helpers.py", "    filtered_citations.sort(key=lambda citation: citation.span())",
      "    filtered_citations.sort(key=lambda citation: citation.full_span())", ["C03"]),
-    ("pin-cite-prefix", "eyecite/helpers.py", "                len(m[\"pin_cite\"].rstrip(\", \")) - len(prefix), 0\n",
-     "                len(m[\"pin_cite\"].rstrip(\", \")), 0\n", ["C02"]),
     ("pin-cite-no-clamp", "eyecite/helpers.py", "            extra_chars = max(\n                len(m[\"pin_cite\"].rstrip(\", \")) - len(prefix), 0\n            )",
      "            extra_chars = len(m[\"pin_cite\"].rstrip(\", \")) - len(prefix)", ["C02"]),
     ("year-no-upper-bound", "eyecite/helpers.py", "    if year < 1600 or year > _highest_valid_year:", "    if year < 1600:", ["C18"]),
